@@ -9,6 +9,7 @@ import (
 	realfp "path/filepath"
 	"sort"
 	"strings"
+	"sync"
 	"syscall"
 	"time"
 
@@ -21,6 +22,7 @@ var epoch = time.Date(2000, 1, 1, 0, 0, 0, 0, time.UTC)
 // Log is the event log of a run. Logging never draws from a PRNG and never
 // reads the real clock (time.Now is the bubble's fake clock).
 type Log struct {
+	mu    sync.Mutex
 	Lines []string
 	sb    string // sandbox prefix, replaced by $SB so logs do not depend on the pid
 }
@@ -38,7 +40,9 @@ func (l *Log) Addf(format string, a ...interface{}) {
 			}
 		}
 	}
+	l.mu.Lock()
 	l.Lines = append(l.Lines, fmt.Sprintf("t=+%d %s", time.Since(epoch).Nanoseconds(), s))
+	l.mu.Unlock()
 }
 
 func (l *Log) Hash() string {
@@ -294,7 +298,6 @@ type World struct {
 	Root    string
 	outside string
 }
-
 
 // NewWorld creates sandbox/{canary, sibling/, <root>-evil/, <root>/} under base.
 func NewWorld(base, rootName string) (*World, error) {
